@@ -49,6 +49,14 @@ CHECKS['C04'] = dict(
     design='4 (C04), 6 (D3, D4, D18)',
     technique='Coq proof that pruning empties an unprotected subtree and the replacement keeps exactly the newer content; exhaustive flag correspondence; sampled merge correspondence; scenario oracle for replays')
 
+CHECKS['C05'] = dict(
+    text='Machine-checked: C05_path_irrelevant (for ALL trees, tags and flags the merged node and outcome class do not depend on the path at which the merge happens - the path only '
+         'reaches error reports; this is exactly what the repaired defect D3 violated), C05_wrap (wrapping both documents under the same key yields the unwrapped result under that key, '
+         'up to implicit flags, unless the documented remove-this-key idiom applies; key chains by induction), C05_sim_content, C05_fuel_irrelevant (the model\'s fuel never matters once it suffices). '
+         'Tied by sampled correspondence on wrapped/unwrapped histories; oracles: wrapped vs unwrapped build with wrapping keys drawn from the document alphabet, sibling independence, frame.',
+    design='4 (C05)',
+    technique='Coq proofs by induction on fuel with prefix-shift lemmas for filter_nodes / nodes_with_paths; sampled vm_compute correspondence; wrap / sibling / frame oracles for replays')
+
 NOT_APPLICABLE = {}
 
 
